@@ -148,3 +148,16 @@ func exprString(w *World, e ast.Expr) string {
 	printer.Fprint(&sb, w.Fset, e)
 	return strings.Join(strings.Fields(sb.String()), " ")
 }
+
+func firstCompositeLit(n ast.Node) *ast.CompositeLit {
+	var out *ast.CompositeLit
+	ast.Inspect(n, func(x ast.Node) bool {
+		if cl, ok := x.(*ast.CompositeLit); ok && out == nil {
+			out = cl
+		}
+		return out == nil
+	})
+	return out
+}
+
+func trimQ(s string) string { return strings.Trim(s, `"`) }
